@@ -1,7 +1,7 @@
 #!/bin/bash
 # run every collected mutant (/tmp/wtout/*/m*/patch.diff or /verif/seeded/*/patch.diff) against the given properties (default: its own)
 props_all="$*"
-for d in /tmp/wtout/C*/m* /verif/seeded/*; do
+for d in /verif/seeded/*; do
   [ -f $d/patch.diff ] || continue
   own=$(python3 -c "import json;print(json.load(open('$d/meta.json'))['property'])" 2>/dev/null)
   props=${props_all:-$own}
